@@ -208,6 +208,16 @@ func ToBaseChannelProposal(protoProp *BaseChannelProposal) (prop client.BaseChan
 		return prop, errors.WithMessage(err, "init bals")
 	}
 	prop.FundingAgreement = ToBalances(protoProp.GetFundingAgreement())
+	if len(prop.FundingAgreement) > channel.MaxNumAssets {
+		return prop, errors.Errorf("funding agreement: expected maximum number of assets %d, got %d",
+			channel.MaxNumAssets, len(prop.FundingAgreement))
+	}
+	for i := range prop.FundingAgreement {
+		if len(prop.FundingAgreement[i]) > channel.MaxNumParts {
+			return prop, errors.Errorf("funding agreement: expected maximum number of parts %d, got %d",
+				channel.MaxNumParts, len(prop.FundingAgreement[i]))
+		}
+	}
 	for i := range prop.FundingAgreement {
 		if err = checkBalanceLengths(prop.FundingAgreement[i]); err != nil {
 			return prop, errors.WithMessagef(err, "funding agreement of %d'th asset", i)
